@@ -27,7 +27,13 @@ def main():
     tier = "quick"
     if "--tier" in sys.argv:
         tier = sys.argv[sys.argv.index("--tier") + 1]
-    src = "/tmp/seed/%s-out" % pid
+    base = "/tmp/seed"
+    if "--src" in sys.argv:
+        base = sys.argv[sys.argv.index("--src") + 1]
+    src = "%s/%s-out" % (base, pid)
+    store_n = n
+    if "--as" in sys.argv:
+        store_n = sys.argv[sys.argv.index("--as") + 1]
     patch = os.path.join(src, "patch%s.diff" % n)
     demo = os.path.join(src, "demo%s_test.go" % n)
     if not (os.path.exists(patch) and os.path.exists(demo)):
@@ -90,7 +96,7 @@ def main():
         finally:
             sh("git -C /repo checkout -- . && git -C /repo clean -fdq")
     # 3. record
-    dst = "/verif/seeded/%s-%s" % (pid, n)
+    dst = "/verif/seeded/%s-%s" % (pid, store_n)
     os.makedirs(dst, exist_ok=True)
     shutil.copy(patch, os.path.join(dst, "patch.diff"))
     shutil.copy(demo, os.path.join(dst, "demo_test.go"))
